@@ -172,3 +172,17 @@ def run(ctx, res):
                 res.violation('token %r at %d: (start_pos,line,column,end_pos,end_line,end_column) = %s, source coordinates are %s' % (t[1], t[2], got, ms),
                               {'grammar': job[0], 'text': rec['text'], 'config': rec['cfg'], 'bytes': rec['bytes'], 'token': t, 'expected': ms})
                 break
+
+
+    # ---- tree meta (propagate_positions): spans of the raw derivation vs Tree.meta, via the C03 stream with newline-bearing ignores
+    import shapelib
+    from props import c03
+    for f in ctx['known']:
+        if f['id'] == 'F19' and f['status'] == 'open':
+            from lark import Lark
+            w = f['witness']
+            t = Lark(w['grammar'], parser='lalr', propagate_positions=True).parse(w['text'])
+            if t.meta.start_pos != 0:
+                res.known_hits.append(('F19', '%s: %r on %r gives start.meta.start_pos=%d, the rule matched from offset 0' % (f['what'], w['grammar'], w['text'], t.meta.start_pos)))
+    jobs2, outs2 = shapelib.shape_stream(ctx, 66, 60, 2500, ntexts=3, newlines=True)
+    c03.check(ctx, res, jobs2, outs2, want_meta=True)
